@@ -50,6 +50,7 @@ AbsSeq(u) == Strict([j \in 1..Len(u) |-> AbsI(u[j])])
 IsZeroRow(r) == \A i \in 1..Len(r) : r[i] = 0
 
 (* sign of a/b - c/d (b, d > 0) by the Euclidean algorithm: never multiplies, so it cannot overflow 32 bits       *)
+(* (TLC: \div floors and % is non-negative for a positive divisor; it is only applied to non-negative fractions) *)
 RECURSIVE CmpFrac(_, _, _, _)
 CmpFrac(a, b, p, q) ==
     LET qa == a \div b
@@ -230,7 +231,7 @@ Unflat(gs, fl, d, wd) ==                                               \* fl[t] 
     Strict([i \in 1..d |-> Strict([j \in 1..wd |->
         LET t == GroupOf(gs, i) IN fl[t][(PosIn(gs[t], i) - 1) * wd + j]])])
 
-GenVal(seed, i, j) == ((seed * seed * 5 + seed * (7 * i + 3 * j) + 11 * i * j + 3 * i + j) % 7) - 3
+GenVal(seed, i, j) == ((seed * seed * 5 + seed * (3 * i + 5 * j) + 2 * i * i + 3 * i * j + 4 * i + j) % 7) - 3
 GenMat(seed, d, wd) == Strict([i \in 1..d |-> Strict([j \in 1..wd |->
                           IF (seed + 2 * i) % 5 = 0 THEN 0 ELSE GenVal(seed, i, j)])])
 
